@@ -15,6 +15,10 @@ pub enum BackendKind {
     Mem,
     Sqlite,
     SqliteReopen,
+    /// two `Server` instances over one in-memory storage, requests alternate between them
+    MemTwoServers,
+    /// two `Server` instances, each with its own `SqliteStorage` on one data directory
+    SqliteTwoServers,
 }
 
 #[derive(Clone, Copy, PartialEq, Eq, Debug)]
@@ -62,6 +66,8 @@ pub struct World {
     pub dir: Option<tempfile::TempDir>,
     pub mem: Option<Arc<InMemoryStorage>>,
     pub server: Server,
+    /// second instance sharing the same data (requests alternate): nothing may be remembered per instance
+    pub server2: Option<Server>,
     pub cfg: (i64, u32),
 }
 
@@ -74,14 +80,20 @@ impl World {
     pub fn new(kind: BackendKind, cfg: (i64, u32)) -> World {
         let sc = ServerConfig { snapshot_days: cfg.0, snapshot_versions: cfg.1 };
         match kind {
-            BackendKind::Mem => {
+            BackendKind::Mem | BackendKind::MemTwoServers => {
                 let mem = Arc::new(InMemoryStorage::new());
-                World { plan: None, kind, dir: None, server: Server::new(sc, Shared(mem.clone())), mem: Some(mem), cfg }
+                let server2 = if kind == BackendKind::MemTwoServers { Some(Server::new(ServerConfig { snapshot_days: cfg.0, snapshot_versions: cfg.1 }, Shared(mem.clone()))) } else { None };
+                World { plan: None, kind, dir: None, server: Server::new(sc, Shared(mem.clone())), server2, mem: Some(mem), cfg }
             }
             _ => {
                 let dir = scratch_dir();
                 let st = SqliteStorage::new(dir.path()).expect("sqlite storage");
-                World { plan: None, kind, server: Server::new(sc, st), dir: Some(dir), mem: None, cfg }
+                let server2 = if kind == BackendKind::SqliteTwoServers {
+                    Some(Server::new(ServerConfig { snapshot_days: cfg.0, snapshot_versions: cfg.1 }, SqliteStorage::new(dir.path()).expect("sqlite storage")))
+                } else {
+                    None
+                };
+                World { plan: None, kind, server: Server::new(sc, st), server2, dir: Some(dir), mem: None, cfg }
             }
         }
     }
@@ -92,7 +104,7 @@ impl World {
         let st = SqliteStorage::new(dir.path()).expect("sqlite storage");
         let plan = Arc::new(std::sync::Mutex::new(crate::wrappers::FaultPlan::default()));
         let fs = crate::wrappers::FaultStorage { inner: st, plan: plan.clone() };
-        World { plan: Some(plan), kind: BackendKind::Sqlite, server: Server::new(sc, fs), dir: Some(dir), mem: None, cfg }
+        World { plan: Some(plan), kind: BackendKind::Sqlite, server: Server::new(sc, fs), server2: None, dir: Some(dir), mem: None, cfg }
     }
     pub fn reopen(&mut self) {
         if let Some(d) = &self.dir {
@@ -142,8 +154,12 @@ impl Run {
     fn viol(&self, tags: &[&'static str], what: String) -> Violation {
         let mut tags = tags.to_vec();
         // a deviation seen on a SQLite configuration is by construction also a difference between backends
-        if self.world.kind != BackendKind::Mem && !tags.contains(&"C13") {
+        if !matches!(self.world.kind, BackendKind::Mem | BackendKind::MemTwoServers) && !tags.contains(&"C13") {
             tags.push("C13");
+        }
+        // with two server instances on one data set, a deviation means something is remembered per instance
+        if matches!(self.world.kind, BackendKind::MemTwoServers | BackendKind::SqliteTwoServers) && !tags.contains(&"C03") {
+            tags.push("C03");
         }
         Violation { tags, what, backend: self.world.kind, cfg: self.world.cfg, trace: self.trace.clone() }
     }
@@ -206,6 +222,10 @@ impl Run {
         self.steps += 1;
         if self.world.kind == BackendKind::SqliteReopen {
             self.world.reopen();
+        }
+        if let Some(s2) = &mut self.world.server2 {
+            // alternate between the two server instances
+            std::mem::swap(&mut self.world.server, s2);
         }
         let before = self.model.clone();
         let mut mutating_expected = false;
@@ -336,6 +356,18 @@ impl Run {
             let real = absfn::via_api(probe.as_ref(), *cl, &self.universe).map_err(|e| self.viol(&["C13", "C05"], format!("reading back state failed: {e}")))?;
             let want = cs(&self.model, *cl);
             if real != want {
+                let mut extra: Vec<&'static str> = vec![];
+                if real.snapshot.as_ref().map(|s| s.versions_since) != want.snapshot.as_ref().map(|s| s.versions_since) {
+                    extra.push("C12");
+                }
+                if real.snapshot.as_ref().map(|s| s.version_id) != want.snapshot.as_ref().map(|s| s.version_id) || real.snapshot_data != want.snapshot_data {
+                    extra.push("C11");
+                    extra.push("C10");
+                }
+                if real.versions != want.versions || real.children != want.children || real.latest != want.latest {
+                    extra.push("C07");
+                    extra.push("C01");
+                }
                 let tags: &[&'static str] = if i != actor {
                     &["C09"]
                 } else if !mutating {
@@ -347,7 +379,13 @@ impl Run {
                         _ => &["C13"],
                     }
                 };
-                return Err(self.viol(tags, format!("stored state of client{i} differs from the contract's post-state: real {real:?} expected {want:?} (before: {:?})", cs(before, *cl))));
+                let mut tags: Vec<&'static str> = tags.to_vec();
+                for e in extra {
+                    if !tags.contains(&e) {
+                        tags.push(e);
+                    }
+                }
+                return Err(self.viol(&tags, format!("stored state of client{i} differs from the contract's post-state: real {real:?} expected {want:?} (before: {:?})", cs(before, *cl))));
             }
             // C01: one unbranched chain, walkable from its base in acceptance order
             let n = chain_wf(&real).map_err(|e| self.viol(&["C01"], format!("client{i}: {e}")))?;
